@@ -988,7 +988,21 @@ where
   fn poll(mut self: Pin<&mut Self>, cx: &mut Context<'_>) -> Poll<Self::Output> {
     match self.writer_command.take() {
       Some(wc) => {
-        match self.writer.cc_upload.try_send(wc) {
+        // If the command queue is full, we store our waker, so that the Writer
+        // wakes us up when it takes something out of the queue. But the Writer
+        // may have done that already between our failed attempt and the
+        // storing of the waker, and then nobody is going to wake us up. So
+        // after the waker is in place, we must try once more.
+        let first_attempt = match self.writer.cc_upload.try_send(wc) {
+          Err(TrySendError::Full(wc)) => {
+            verif_yield!("asyncwrite:poll:after-failed-send");
+            *self.writer.cc_upload_waker.lock().unwrap() = Some(cx.waker().clone());
+            verif_yield!("asyncwrite:poll:after-waker-store");
+            self.writer.cc_upload.try_send(wc)
+          }
+          other => other,
+        };
+        match first_attempt {
           Ok(()) => {
             self.writer.refresh_manual_liveliness();
             Poll::Ready(Ok(SampleIdentity {
@@ -997,9 +1011,6 @@ where
             }))
           }
           Err(TrySendError::Full(wc)) => {
-            verif_yield!("asyncwrite:poll:after-failed-send");
-            *self.writer.cc_upload_waker.lock().unwrap() = Some(cx.waker().clone());
-            verif_yield!("asyncwrite:poll:after-waker-store");
             if Instant::now() < self.timeout_instant {
               // Put our command back
               self.writer_command = Some(wc);
